@@ -194,12 +194,48 @@ Section Sorted.
       injection H as <- _. destruct Hp as [<-|Hp]; [exact (conv_prop_rn _ _ _ _ _ _ _ _ Hq)|exact (IH _ _ _ Hr p Hp)].
   Qed.
 
-  Lemma conv_kind_sorted items props req ap k nm s0 te s1 :
-    Forall SortP items -> Forall (fun kv => SortP (snd kv)) props -> OForall SortP ap ->
-    conv_kind cls rid cvf k nm items props req ap s0 = Some (te, s1) -> SI s0 -> SI s1 /\ SD te.
+  Lemma conv_xvar_sorted nm v sc s0 vd dn s1 :
+    SortP sc -> conv_xvar cvf nm v sc s0 = Some (vd, dn, s1) -> SI s0 -> SI s1.
   Proof.
-    intros HPi HPp HPa H Hs.
-    destruct k as [| | | |mx mn pat|r|raws|deny| | |c|c|r|]; cbn [conv_kind] in H.
+    intros HP H Hs. unfold conv_xvar in H. destruct (cvf sc _ s0) as [[te sa]|] eqn:Hc; [|discriminate].
+    destruct (HP _ _ _ _ Hc Hs) as [Hsa Hte].
+    destruct te; try (injection H as _ _ <-; exact Hsa);
+      destruct (assign _ sa) as [t9 sb] eqn:Ha; injection H as _ _ <-; exact (assign_SI _ _ _ _ Ha Hsa Hte).
+  Qed.
+
+  Lemma conv_xbranches_sorted nm : forall bs, Forall (PropP SortP) bs -> forall s0 rvs dn s1,
+    conv_xbranches cvf nm bs s0 = Some (rvs, dn, s1) -> SI s0 -> SI s1.
+  Proof.
+    induction bs as [|b r IH]; intros HQ s0 rvs dn s1 H Hs; cbn [conv_xbranches] in H.
+    - injection H as _ _ <-. exact Hs.
+    - destruct b as [bb|bty bfmt benum bcst bnv bsv bik bitems bai bmni bmxi buq bprops breq bap bmnp bmxp ballo banyo boneo bno bref bdflt btitle];
+        [discriminate|].
+      assert (Hrest : forall vs1 d1 sa, SI sa ->
+                match conv_xbranches cvf nm r sa with
+                | Some (vs2, d2, s2) => Some (vs1 ++ vs2, d1 || d2, s2)
+                | None => None
+                end = Some (rvs, dn, s1) -> SI s1).
+      { intros vs1 d1 sa F Hx. destruct (conv_xbranches cvf nm r sa) as [[[vs2 d2] s2]|] eqn:Hr; [|discriminate].
+        injection Hx as _ _ <-. exact (IH (Forall_inv_tail HQ) _ _ _ _ Hr F). }
+      destruct bprops as [|[v sc] [|]].
+      + destruct (xsimple _); [|discriminate]. exact (Hrest _ _ _ Hs H).
+      + destruct (conv_xvar cvf nm v sc s0) as [[[vd deny] sa]|] eqn:Hv; [|discriminate].
+        refine (Hrest _ _ _ _ H). exact (conv_xvar_sorted _ _ _ _ _ _ _ (Forall_inv HQ v sc eq_refl) Hv Hs).
+      + destruct (xsimple _); [|discriminate]. exact (Hrest _ _ _ Hs H).
+  Qed.
+
+  Lemma conv_kind_sorted items props req ap oneo k nm s0 te s1 :
+    Forall SortP items -> Forall (fun kv => SortP (snd kv)) props -> OForall SortP ap ->
+    OForall (Forall (PropP SortP)) oneo ->
+    conv_kind cls rid cvf k nm items props req ap oneo s0 = Some (te, s1) -> SI s0 -> SI s1 /\ SD te.
+  Proof.
+    intros HPi HPp HPa HPo H Hs.
+    destruct k as [| | | |mx mn pat|r|raws|deny| | |c|c|r| |tg]; cbn [conv_kind] in H.
+    15: { destruct tg; try discriminate. destruct (type_name cls nm); [|discriminate].
+          destruct oneo as [bs|]; [|discriminate].
+          destruct (conv_xbranches cvf nm bs s0) as [[[rvs deny] sa]|] eqn:Hb; [|discriminate].
+          unfold mk_tagged in H. destruct (Sanitize.variant_idents cls (map fst rvs)); try discriminate.
+          injection H as <- <-. split; [exact (conv_xbranches_sorted _ _ HPo _ _ _ _ Hb Hs)|exact I]. }
     - injection H as <- <-. split; [exact Hs|exact I].
     - injection H as <- <-. split; [exact Hs|exact I].
     - injection H as <- <-. split; [exact Hs|exact I].
@@ -252,20 +288,20 @@ Section Sorted.
 
   Lemma conv_sorted : forall s, SortP s.
   Proof.
-    apply schema_ind'.
+    apply schema_ind_p.
     - intros [|] nm s0 te s1 H Hs; cbn [conv] in H; [|discriminate].
       injection H as <- <-. split; [apply set_json_SI; exact Hs|exact I].
     - intros ty fmt enum cst nv sv ik items ai mni mxi uq props req ap mnp mxp allo anyo oneo no ref dflt title
-             IHitems _ IHprops IHap _ _ _ _.
+             IHitems IHprops IHap IHone.
       intros nm s0 te s1 H Hs. cbn [conv] in H.
       destruct (classify ty fmt enum cst nv sv ik items ai mni mxi uq props req ap mnp mxp allo anyo oneo no ref dflt title)
         as [[nl k]|]; cbn [conv_node] in H; [|discriminate].
       destruct nl.
-      + destruct (conv_kind cls rid cvf k (inner_name nm) items props req ap s0) as [[ti sa]|] eqn:Hc; [|discriminate].
-        destruct (conv_kind_sorted _ _ _ _ _ _ _ _ _ IHitems IHprops IHap Hc Hs) as [Hsa Hti].
+      + destruct (conv_kind cls rid cvf k (inner_name nm) items props req ap oneo s0) as [[ti sa]|] eqn:Hc; [|discriminate].
+        destruct (conv_kind_sorted _ _ _ _ _ _ _ _ _ _ IHitems IHprops IHap IHone Hc Hs) as [Hsa Hti].
         destruct (assign ti sa) as [i sb] eqn:Ha. injection H as <- <-.
         split; [exact (assign_SI _ _ _ _ Ha Hsa Hti)|exact I].
-      + exact (conv_kind_sorted _ _ _ _ _ _ _ _ _ IHitems IHprops IHap H Hs).
+      + exact (conv_kind_sorted _ _ _ _ _ _ _ _ _ _ IHitems IHprops IHap IHone H Hs).
   Qed.
 
   Lemma put_SI s t ent names types flags :
@@ -394,13 +430,50 @@ Section Slots.
       eapply frame_trans; [exact (assign_frame _ _ _ _ Ha)|exact (IH HP2 _ _ _ _ Hr)].
   Qed.
 
-  Lemma conv_kind_frame items props req ap k nm s0 te s1 :
-    Forall FrameP items -> Forall (fun kv => FrameP (snd kv)) props -> OForall FrameP ap ->
-    conv_kind cls rid cvf k nm items props req ap s0 = Some (te, s1) -> frame s0 s1.
+  Lemma conv_xvar_frame nm v sc s0 vd dn s1 :
+    FrameP sc -> conv_xvar cvf nm v sc s0 = Some (vd, dn, s1) -> frame s0 s1.
   Proof.
-    intros HPi HPp HPa H.
-    destruct k as [| | | |mx mn pat|r|raws|deny| | |c|c|r|]; cbn [conv_kind] in H;
+    intros HP H. unfold conv_xvar in H. destruct (cvf sc _ s0) as [[te sa]|] eqn:Hc; [|discriminate].
+    pose proof (HP _ _ _ _ Hc) as F1.
+    destruct te; try (injection H as _ _ <-; exact F1);
+      destruct (assign _ sa) as [t9 sb] eqn:Ha; injection H as _ _ <-;
+      (eapply frame_trans; [exact F1|exact (assign_frame _ _ _ _ Ha)]).
+  Qed.
+
+  Lemma conv_xbranches_frame nm : forall bs, Forall (PropP FrameP) bs -> forall s0 rvs dn s1,
+    conv_xbranches cvf nm bs s0 = Some (rvs, dn, s1) -> frame s0 s1.
+  Proof.
+    induction bs as [|b r IH]; intros HQ s0 rvs dn s1 H; cbn [conv_xbranches] in H.
+    - injection H as _ _ <-. apply frame_refl.
+    - destruct b as [bb|bty bfmt benum bcst bnv bsv bik bitems bai bmni bmxi buq bprops breq bap bmnp bmxp ballo banyo boneo bno bref bdflt btitle];
+        [discriminate|].
+      assert (Hrest : forall vs1 d1 sa, frame s0 sa ->
+                match conv_xbranches cvf nm r sa with
+                | Some (vs2, d2, s2) => Some (vs1 ++ vs2, d1 || d2, s2)
+                | None => None
+                end = Some (rvs, dn, s1) -> frame s0 s1).
+      { intros vs1 d1 sa F Hx. destruct (conv_xbranches cvf nm r sa) as [[[vs2 d2] s2]|] eqn:Hr; [|discriminate].
+        injection Hx as _ _ <-. eapply frame_trans; [exact F|exact (IH (Forall_inv_tail HQ) _ _ _ _ Hr)]. }
+      destruct bprops as [|[v sc] [|]].
+      + destruct (xsimple _); [|discriminate]. exact (Hrest _ _ _ (frame_refl s0) H).
+      + destruct (conv_xvar cvf nm v sc s0) as [[[vd deny] sa]|] eqn:Hv; [|discriminate].
+        refine (Hrest _ _ _ _ H). exact (conv_xvar_frame _ _ _ _ _ _ _ (Forall_inv HQ v sc eq_refl) Hv).
+      + destruct (xsimple _); [|discriminate]. exact (Hrest _ _ _ (frame_refl s0) H).
+  Qed.
+
+  Lemma conv_kind_frame items props req ap oneo k nm s0 te s1 :
+    Forall FrameP items -> Forall (fun kv => FrameP (snd kv)) props -> OForall FrameP ap ->
+    OForall (Forall (PropP FrameP)) oneo ->
+    conv_kind cls rid cvf k nm items props req ap oneo s0 = Some (te, s1) -> frame s0 s1.
+  Proof.
+    intros HPi HPp HPa HPo H.
+    destruct k as [| | | |mx mn pat|r|raws|deny| | |c|c|r| |tg]; cbn [conv_kind] in H;
       try (injection H as _ <-; apply frame_refl).
+    10: { destruct tg; try discriminate. destruct (type_name cls nm); [|discriminate].
+          destruct oneo as [bs|]; [|discriminate].
+          destruct (conv_xbranches cvf nm bs s0) as [[[rvs deny] sa]|] eqn:Hb; [|discriminate].
+          destruct (mk_tagged cls u TagExternal rvs deny); [|discriminate]. injection H as _ <-.
+          exact (conv_xbranches_frame _ _ HPo _ _ _ _ Hb). }
     - destruct (assign DString _) as [sid sa] eqn:Ha.
       destruct (type_name cls nm); [|discriminate]. injection H as _ <-.
       eapply frame_trans; [|exact (assign_frame _ _ _ _ Ha)].
@@ -432,18 +505,18 @@ Section Slots.
 
   Lemma conv_frame : forall s, FrameP s.
   Proof.
-    apply schema_ind'.
+    apply schema_ind_p.
     - intros [|] nm s0 te s1 H; cbn [conv] in H; [|discriminate]. injection H as _ <-. apply frame_set_json.
     - intros ty fmt enum cst nv sv ik items ai mni mxi uq props req ap mnp mxp allo anyo oneo no ref dflt title
-             IHitems _ IHprops IHap _ _ _ _.
+             IHitems IHprops IHap IHone.
       intros nm s0 te s1 H. cbn [conv] in H.
       destruct (classify ty fmt enum cst nv sv ik items ai mni mxi uq props req ap mnp mxp allo anyo oneo no ref dflt title)
         as [[nl k]|]; cbn [conv_node] in H; [|discriminate].
       destruct nl.
-      + destruct (conv_kind cls rid cvf k (inner_name nm) items props req ap s0) as [[ti sa]|] eqn:Hc; [|discriminate].
+      + destruct (conv_kind cls rid cvf k (inner_name nm) items props req ap oneo s0) as [[ti sa]|] eqn:Hc; [|discriminate].
         destruct (assign ti sa) as [i sb] eqn:Ha. injection H as _ <-.
-        eapply frame_trans; [exact (conv_kind_frame _ _ _ _ _ _ _ _ _ IHitems IHprops IHap Hc)|exact (assign_frame _ _ _ _ Ha)].
-      + exact (conv_kind_frame _ _ _ _ _ _ _ _ _ IHitems IHprops IHap H).
+        eapply frame_trans; [exact (conv_kind_frame _ _ _ _ _ _ _ _ _ _ IHitems IHprops IHap IHone Hc)|exact (assign_frame _ _ _ _ Ha)].
+      + exact (conv_kind_frame _ _ _ _ _ _ _ _ _ _ IHitems IHprops IHap IHone H).
   Qed.
 
   Definition stored (te ent : details) : Prop :=
